@@ -67,12 +67,12 @@ def spaces(tier, seed):
         {"kind": "triple", "method": m, "measure": t, "form": f, "c0": i}
         for m in ("vfit", "quadratic") for t in ("min", "max") for f in FORMS for i in range(len(TRIPLE_ALPHABET))
     ]
-    nds = [3, 4] if tier == "quick" else [3, 4, 5]
+    nds = [1, 2, 3, 4] if tier == "quick" else [1, 2, 3, 4, 5]  # 1: interval [d, d], legal
     packed = [
         {"kind": "packed", "nd": nd, "subpix": sp, "measure": t, "method": m, "dmin": [-1, 0, -3, 2][(seed + nd + sp) % 4]}
         for nd in nds for sp in (1, 2, 4) for t in ("min", "max") for m in ("vfit", "quadratic")
     ]
-    single_nds = [3] if tier == "quick" else [3, 4]
+    single_nds = [1, 2, 3] if tier == "quick" else [1, 2, 3, 4]
     flags = FLAGS_QUICK_SINGLE if tier == "quick" else FLAGS_ALL
     singles = [
         {"kind": "single", "nd": nd, "subpix": sp, "measure": t, "method": m, "flag": fl,
@@ -386,7 +386,11 @@ def _vectors(nd):
 
 def _positions(nd):
     """received disparities in index units: every sample, then off-grid positions"""
-    return [float(k) for k in range(nd)] + [0.5, 1.5, nd - 1.5, 1.25]
+    out = []
+    for x in [float(k) for k in range(nd)] + [0.5, 1.5, nd - 1.5, 1.25]:
+        if 0.0 <= x <= nd - 1 and x not in out:  # a received disparity lies within the axis of its cost volume
+            out.append(x)
+    return out
 
 
 def run_packed(case):
